@@ -217,11 +217,64 @@ pub fn observed_payload(a: &Analysis, pay: PayId) -> HashMap<Inst, u32> {
     m
 }
 
+/// A run that read *nothing at all* although the runner hook says it was started in-line, inside the bracket of command
+/// `cmd`, for an event of the kind of `key` (and, for insertions / mutations, on that entity). What such a run should have
+/// read is C03's business; for the scheduling questions (C01, C06, C09, C14, C15, C16) it is the run that `cmd` caused -
+/// otherwise a reader defect would be reported as "reactor not scheduled" by checks whose property holds.
+/// Never true on code whose readers work: a run started for an event reads that event.
+pub fn blind_inline_run(a: &Analysis, r: &RunRec, cmd: usize, key: Key) -> bool {
+    if r.replay || r.parent != Some(cmd) || !r.obs.seen().is_empty() {
+        return false;
+    }
+    let Some(h) = r.hook_enter.filter(|h| *h > 0) else { return false };
+    let Ev::Hook(HookEv::Apply { kind, .. }) = &a.tr[h - 1] else { return false };
+    match (kind, key) {
+        (HKind::Insertion(e), Key::Ins(_, k)) => *e == k,
+        (HKind::Mutation(e), Key::Mut(_, k)) => *e == k,
+        (HKind::Broadcast | HKind::EntityEvent(_) | HKind::SystemEvent, Key::Pay(_)) => true,
+        _ => false,
+    }
+}
+
+/// Keys under which a run is counted for scheduling questions: what it read, or - for a run that read nothing although
+/// the runner hooks say it was started in-line for an event - the key of the delivery whose bracket contains the `Apply`
+/// hook of its command.
+pub fn sched_keys(a: &Analysis, dels: &[Delivery], r: &RunRec) -> Vec<Key> {
+    let ks = keys_of_obs(&r.obs);
+    if !(ks.len() == 1 && ks[0] == Key::Empty) {
+        return ks;
+    }
+    let Some(h) = r.hook_enter.filter(|h| *h > 0) else { return ks };
+    // (a replayed run is not traced back to its command: the order in which the postponed commands of one system are
+    // replayed is not fixed - tolerance 2 - so a blind replayed run stays unidentified)
+    let origin = match &a.tr[h - 1] {
+        Ev::Hook(HookEv::Apply { .. }) if !r.replay => Some(h - 1),
+        _ => None,
+    };
+    let Some(o) = origin else { return ks };
+    let Ev::Hook(HookEv::Apply { kind, .. }) = &a.tr[o] else { return ks };
+    if matches!(kind, HKind::System | HKind::Resource | HKind::Removal(_) | HKind::Despawn(_)) {
+        return ks;
+    }
+    let Some(d) = dels.iter().filter(|d| d.pre < o && o < d.post).max_by_key(|d| d.pre) else { return ks };
+    let agrees = match (kind, d.key) {
+        (HKind::Insertion(e), Key::Ins(_, k)) => *e == k,
+        (HKind::Mutation(e), Key::Mut(_, k)) => *e == k,
+        (HKind::Broadcast | HKind::EntityEvent(_) | HKind::SystemEvent, Key::Pay(_)) => true,
+        _ => false,
+    };
+    if agrees {
+        vec![d.key]
+    } else {
+        ks
+    }
+}
+
 /// Direct-child runs of the bracket of `d` whose observation carries the delivery's key, per instance.
 pub fn observed_inline(a: &Analysis, d: &Delivery) -> HashMap<Inst, u32> {
     let mut m = HashMap::new();
     for r in a.runs_in(d.pre, d.post).iter() {
-        if r.pos > d.pre && r.pos < d.post && r.parent == Some(d.cmd) && !r.replay && keys_of_obs(&r.obs).contains(&d.key) {
+        if r.pos > d.pre && r.pos < d.post && r.parent == Some(d.cmd) && !r.replay && (keys_of_obs(&r.obs).contains(&d.key) || blind_inline_run(a, r, d.cmd, d.key)) {
             *m.entry(r.inst).or_insert(0) += 1;
         }
     }
